@@ -2,7 +2,7 @@
 import wlcheck
 
 PID = 'C01'
-TAGS = set('get,snapget,step,inv,mem,recover,droploop,csnap'.split(','))
+TAGS = set('get,snapget,step,inv,mem,recover,droploop,csnap,inputs,picklevel'.split(','))
 THEOREMS = [
     'Lcdb.C01.get_eq_view',
     'Lcdb.C01.getEntry_eq_newestVisible',
